@@ -127,7 +127,7 @@ def run(prop, tier, seed):
             fails.append((j, cls, gerr))
             continue
         # correspondence with the model's class (for `check` the model has no listing: status only)
-        if m == "running":
+        if m == "running" or C.timed_out(m):
             continue
         mk = m.split("|")[0]
         if sub == "check":
